@@ -100,15 +100,18 @@ pub async fn mixed_boundary_history(ctx: &mut Ctx, root: &std::path::Path, tag: 
     let _ = std::fs::remove_dir_all(&w.dir);
 }
 
+/// number of harness processes the thorough budget is split over (set by `check`)
+pub fn chunks() -> usize { std::env::var("VH_CHUNKS").ok().and_then(|x| x.parse().ok()).filter(|x| *x > 0).unwrap_or(1) }
+
 pub fn run_store(ctx: &mut Ctx) {
     let rt = tokio::runtime::Builder::new_multi_thread().worker_threads(4).enable_all().build().unwrap();
     let root = if std::path::Path::new("/dev/shm").is_dir() { tempfile::tempdir_in("/dev/shm").unwrap() } else { tempfile::tempdir().unwrap() };
-    let n = if ctx.thorough() { 300 } else { 30 };
+    let n = if ctx.thorough() { 300 / chunks() } else { 30 };
     for i in 0..n {
         let nops = ctx.rng.range(30, 110) as usize;
         rt.block_on(history(ctx, root.path(), &format!("{i}"), nops));
     }
-    for i in 0..(if ctx.thorough() { 20 } else { 3 }) { rt.block_on(mixed_boundary_history(ctx, root.path(), &format!("mb{i}"))); }
+    for i in 0..(if ctx.thorough() { (20 / chunks()).max(3) } else { 3 }) { rt.block_on(mixed_boundary_history(ctx, root.path(), &format!("mb{i}"))); }
 }
 
 // ------------------------------------------------------------------ crash recovery (C05, C06)
@@ -366,8 +369,8 @@ pub fn run_crash(ctx: &mut Ctx) {
     let rt = tokio::runtime::Builder::new_multi_thread().worker_threads(4).enable_all().build().unwrap();
     let root = if std::path::Path::new("/dev/shm").is_dir() { tempfile::tempdir_in("/dev/shm").unwrap() } else { tempfile::tempdir().unwrap() };
     // shapes 0..3 are the directed ones (fresh database, after a rollover x2, packed segment): every run has them
-    let n = if ctx.thorough() { 60 } else { 10 };
-    for i in 0..n { let shape = if i < 4 { i } else { 4 + ctx.rng.below(6) }; rt.block_on(crash_history(ctx, root.path(), &format!("{i}"), shape)); }
+    let n = if ctx.thorough() { (60 / chunks()).max(6) } else { 10 };
+    for i in 0..n as u64 { let shape = if i < 4 { i } else { 4 + ctx.rng.below(6) }; rt.block_on(crash_history(ctx, root.path(), &format!("{i}"), shape)); }
 }
 
 // ------------------------------------------------------------------ C19: space accounting at the segment end
@@ -490,6 +493,6 @@ pub async fn space_history(ctx: &mut Ctx, root: &std::path::Path, tag: &str) {
 pub fn run_space(ctx: &mut Ctx) {
     let rt = tokio::runtime::Builder::new_multi_thread().worker_threads(4).enable_all().build().unwrap();
     let root = if std::path::Path::new("/dev/shm").is_dir() { tempfile::tempdir_in("/dev/shm").unwrap() } else { tempfile::tempdir().unwrap() };
-    let n = if ctx.thorough() { 150 } else { 15 };
+    let n = if ctx.thorough() { 150 / chunks() } else { 15 };
     for i in 0..n { rt.block_on(space_history(ctx, root.path(), &format!("{i}"))); }
 }
